@@ -32,6 +32,9 @@ type PipePlan struct {
 	Stride    int          `json:"stride,omitempty"` // enumerate every Stride-th offset (1 = all)
 	Only      *int         `json:"only,omitempty"`
 	Hint      *int         `json:"hint,omitempty"`
+	// ViaCopy: the consumer of the client's bytes is io.Copy(dst, conn) - what
+	// forwarding code mostly is - instead of a Read loop of its own.
+	ViaCopy bool `json:"via_copy,omitempty"`
 }
 
 type pipeStreams struct {
@@ -45,6 +48,16 @@ type pipeStreams struct {
 	// with index gate is read (HelloRetryRequest flight before the second hello)
 	writeFirst int
 	gate       int
+	viaCopy    bool
+}
+
+// copySink is a writer without ReadFrom: io.Copy either loops over Read or
+// uses a WriteTo of the source, should it have one.
+type copySink struct{ b *[]byte }
+
+func (s copySink) Write(p []byte) (int, error) {
+	*s.b = append(*s.b, p...)
+	return len(p), nil
 }
 
 var lastLive *liveWorld
@@ -271,6 +284,15 @@ func (ps *pipeStreams) replayX(chunks []int, readBuf int, cutAt int, cutErr erro
 			return true
 		}
 		gated := gateImg >= 0
+		if ps.viaCopy && !gated && cutErr != errReadTimeout {
+			_, err := io.Copy(copySink{&pr.read}, conn)
+			if err == nil {
+				err = io.EOF // io.Copy's way of saying the source ended
+			}
+			pr.readErr = err
+			write(len(ps.b))
+			return
+		}
 		for {
 			if gated && len(pr.read) >= gateImg {
 				gated = false
@@ -373,7 +395,7 @@ func (ps *pipeStreams) fullImage() []byte {
 
 func executePipe(t *testing.T, prop string, seed uint64, p *PipePlan) *core.Result {
 	res := &core.Result{}
-	ps := &pipeStreams{}
+	ps := &pipeStreams{viaCopy: p.ViaCopy}
 	switch p.Source {
 	case "live":
 		lr := executeLive(t, prop, seed, p.Live)
@@ -632,6 +654,7 @@ func genC07(seed uint64, idx int, tier string) *Plan {
 	r := core.NewRand(seed, "plan")
 	p := &PipePlan{Stride: 1}
 	p.Mode = []string{"cuts", "chunks", "wsplit", "wcuts", "cuts", "chunks"}[idx%6]
+	p.ViaCopy = idx%5 == 3
 	if r.IntN(2) == 0 {
 		p.Source = "live"
 		lp := genLiveBase(r)
